@@ -24,7 +24,7 @@ RULE = ('cases (threads): 2-4 threads x 1-2 FileLock objects (reentrant or not, 
 ASSUMPTIONS = ['same-thread blocking re-acquire of a non-reentrant lock is not generated (deadlocks like threading.Lock)',
                'the multi-process runs sample OS schedules (sound oracle, coverage by luck); Linux flock only',
                'cooperative shims faithful (selftest)']
-CORPUS_PREEMPTIONS = {}
+CORPUS_PREEMPTIONS = {'stalls': [0.02, 0.06, 0.11, 0.5]}
 BUDGET = {'quick': 200, 'thorough': 6000}
 ESSENTIAL = ['nontrivial', 'two-objects', 'failed-attempt']
 
